@@ -37,6 +37,10 @@ CHECKS = {
                 technique="bounded-exhaustive enumeration: (i) every size query on every view of every catalogue image vs. the reference image length (random access + cursor), (ii) trait-level size_bytes(counts..., total_data) for the message and every group instance, (iii) all 16 dimension type pairs / 4 length types x boundary header values in a header-only guarded buffer vs. a 128-bit product",
                 text="Five numbers are required to agree for every instance of the bounded space: run-time size_bytes of the message and of each member/sub-view, the cursor-based size after a traversal, the trait formula with the model's per-level totals, and the length of the image produced by the reference encoder. Products beyond 31/32 bits are covered by writing boundary values of every header field type into a header-only buffer.",
                 note="Trusted: compilers, reference model, unsigned __int128 product as oracle. Sizes that do not fit size_t are excluded as the property states."),
+    "C06": dict(category="fault_enumeration", design_ref="DESIGN.md 5 / C06, 9",
+                technique="fault enumeration over well-formed images on the real size_bytes_checked: every truncation point and every corruption of every blockLength/numInGroup/length instance, in a release build on an exact-size buffer ending at a PROT_NONE page with a CPU budget; reference = structural walk with unbounded integers",
+                text="For every image of the bounded space: every n in 0..len (+ trailing junk) and every header-field instance overwritten with 0, 1, fit-1, fit+1, max/2+1, max-1, max; size_bytes_checked(message | top-level group, n) must return (no fault = no read at offset >= n, no budget overrun = work bounded by n) and its (valid, size) must equal the reference walk's. Four genuine defect classes are recorded as known findings; every other disagreement is a violation.",
+                note="Trusted: kernel guard pages, ITIMER_VIRTUAL budget (250 ms for microseconds of legitimate work), the reference walk."),
     "C12": dict(category="model_checking", design_ref="DESIGN.md 5 / C12",
                 technique="explicit-state exploration of the real group iterators: state = iterator index, all iterator-op sequences up to depth 3 from begin() and end(), integer index model; all 16 dimension type pairs",
                 text="For each of the 16 (numInGroup, blockLength) type pairs x group sizes 0..3 x wire block lengths {0,1,2,5}: every in-domain sequence of iterator operations up to the depth bound is executed on the generated group views; after every step the entry address, it[k], (it+k)-k, distances and all six orderings against an iterator at every index are compared with index arithmetic. Nested groups: all inner-count vectors over {0,1,2}^n. resize/clear are checked to change only numInGroup.",
